@@ -75,6 +75,21 @@ class Event:
         return "Event(%r,%r)" % (self.code, [x[:60] for x in self.f])
 
 
+def make_utmp(path, n=512):
+    """login records (USER_PROCESS) for the terminals pts/0 .. pts/<n-1>, each logged in from its own remote address 10.77.<hi>.<lo>;
+    -> {line: address text}"""
+    recs, addr = [], {}
+    for k in range(n):
+        line = b"pts/%d" % k
+        ip = bytes([10, 77, k >> 8, k & 255])
+        addr[line] = "10.77.%d.%d" % (k >> 8, k & 255)
+        recs.append(struct.pack("<h2xi32s4s32s256shhiii16s20s", 7, 1000 + k, line, b"%04d" % k, b"user%d" % k, b"host%d.example.net" % k, 0, 0, 0,
+                                1700000000, 0, ip + b"\0" * 12, b""))
+    with open(path, "wb") as f:
+        f.write(b"".join(recs))
+    return addr
+
+
 def decode_events(data):
     evs = []
     pos = 0
@@ -181,7 +196,9 @@ class Driver:
     one build do not see each other's snoopy.ini."""
     _n = 0
 
-    def __init__(self, run, build, timeout_ms=20000, extra_preload=(), extra_env=None, san_opts="", binds=()):
+    def __init__(self, run, build, timeout_ms=20000, extra_preload=(), extra_env=None, san_opts="", binds=(), utmp=None):
+        # utmp: a generated login-records file that becomes /run/utmp (= /var/run/utmp) inside the driver's mount namespace
+        self.utmp = utmp
         # binds: (source, target) pairs bind-mounted inside the driver's private mount namespace: system files with generated content
         self.binds = list(binds)
         self.run = run
@@ -243,6 +260,8 @@ class Driver:
         self.errpath = os.path.join(self.run.dir, "drv-stderr-%d-%d.log" % (os.getpid(), Driver._n))
         import shlex
         extra = "".join("mount --bind %s %s && " % (shlex.quote(a), shlex.quote(b)) for a, b in getattr(self, "binds", ()))
+        if getattr(self, "utmp", None):
+            extra += "mount -t tmpfs tmpfs /run && cp %s /run/utmp && chmod 644 /run/utmp && " % shlex.quote(self.utmp)
         if "syslog" in self.build["name"]:
             # the C library's syslog() connects to /dev/log from inside libc, where no interposer sees it: builds with the syslog
             # output get a private /dev (a tmpfs copy of the nodes a scenario uses) in which /dev/log leads to the driver's devlog sink
